@@ -6,15 +6,18 @@ from oracle_util import *  # noqa
 from protocol import from_real, pm
 
 ID = "C12"
-LEAN_MODULE = ["SCoda.Props.C13"]
+LEAN_MODULE = ["SCoda.Props.C13", "SCoda.Props.C12"]
 CLAUSES = [
     ("one sequence per saved sequence, in the same order", ["SCoda.C13.one_per_group"]),
     ("save: summing the delta times of the written track puts every emitted event back on its original tick, in order, with pitch and velocity kept "
      "(the delta buffer is carried across waits and non-emitting messages); at equal resolution loading moves nothing",
      ["SCoda.C13.toMido_ticks_partial", "SCoda.C13.toMido_ticks_nonneg", "SCoda.C13.round_int", "SCoda.C13.convTrack_ticks", "SCoda.C13.notes_to_group"]),
     ("the meta sequence has a time signature at tick 0: the saved one, or 4/4 when the file says nothing there", ["SCoda.C13.default_signature", "SCoda.C13.signatures_to_meta_fields"]),
-    ("end-to-end composition save ∘ codec ∘ load = identity on notes and signatures in force (per-track normalise is the identity on well-formed input, "
-     "merge of one sequence, meta merge)", None),
+    ("end-to-end notes: save ∘ codec ∘ load returns one sequence per saved sequence and sequence i sounds exactly what saved sequence i sounded "
+     "(pitch, onset, duration as the sounding set at every tick; everything comes back on channel 0)",
+     ["SCoda.C13.save_load_sounding", "SCoda.C13.load_sounding"]),
+    ("end-to-end velocities and signatures in force (velocity of every note-on kept; time/key signature in force at every tick on the meta sequence = the saved one, "
+     "4/4 from tick 0 when nothing is saved there)", None),
 ]
 RULE = ("lists of 1-3 integer-tick well-formed single-channel sequences (<=6 notes, velocities 1..127, all 15 keys, "
         "signatures at arbitrary ticks on distinct ticks, leading rests); real file round trip through mido in a temp dir; "
